@@ -1,4 +1,5 @@
 """C15 — human-readable formatters are total (totality clause only)."""
+import re
 from .. import common as K
 from .. import ledger as Lg
 from ..facts import operand_local, const_val
@@ -22,6 +23,76 @@ def run(ctx, crate):
     rule_human_duration_forms_agree(ctx, crate)
     rule_floatcount_one_source(ctx, crate)
     rule_hduration_exact_quotient(ctx, crate)
+    rule_display_no_own_error(ctx, crate)
+    rule_digits_only_grouped(ctx, crate)
+
+
+def rule_digits_only_grouped(ctx, crate, rule="R-DIGITS-ONLY-GROUPED"):
+    """"a comma after every third integer digit": the integer digits of HumanCount / HumanFloatCount reach the formatter only
+    through the grouping loop (character by character). A `write_str` that hands a run of digits to the formatter wholesale
+    skips the grouping; that is right only when the run is known to be short *as a string* (a test of its `len()`), not when a
+    shortcut is keyed on the numeric value: the digits are those of the rounded representation, and rounding can carry 999.99996
+    to "1000" (seed C15k). What may be written wholesale: constants, and the fraction (the part run through `trim_end_matches`)."""
+    cfg = crate.config
+    n = 0
+    for pat in (r"<format::HumanFloatCount as std::fmt::Display>::fmt", r"<format::HumanCount as std::fmt::Display>::fmt"):
+        b = crate.body(pat)
+        if not b:
+            continue
+        for c in b.calls(r"std::fmt::Formatter::<'\w+>::write_str", r"<std::fmt::Formatter<'\w+> as std::fmt::Write>::write_str", r"std::fmt::Write::write_str"):
+            if len(c.args) < 2 or c.args[1].get("k") == "const":
+                continue
+            sl = b.slice_args(c, [1])
+            if sl.has_call(r"core::str::<impl str>::trim_end_matches") or not (sl.calls or sl.params()):
+                continue
+            n += 1
+            short = False
+            for sb, t in b.switches():
+                if any(b.edge_dominates((sb, x), c.bb) for x in b.succ(sb)):
+                    ssl = b.slice_switch(sb)
+                    if ssl.has_call(r"core::str::<impl str>::len", r"std::string::String::len") and not [l for l in ssl.locals if b.locals[l]["ty"] in ("f64", "f32")]:
+                        short = True
+            ctx.check(short, rule, "wholesale-digits:%s" % K.meth(K.owner_fn(crate, b)), b.name, c.loc(),
+                      "digits handed to the formatter as a whole string are known to be at most three (a test of the string's length)",
+                      "a run of integer digits is written without grouping under a condition that is not the length of that run (a shortcut on the numeric value): "
+                      "the digits are those of the *rounded* representation - 999.99996 prints `1000` instead of `1,000`", cfg)
+    ctx.check(True, rule, "scanned", "format.rs", "src/format.rs:0", "%d wholesale digit writes examined" % n, "", cfg)
+
+
+def rule_display_no_own_error(ctx, crate, rule="R-DISPLAY-NO-OWN-ERROR"):
+    """`fmt::Error` means "the underlying writer failed", never "this value cannot be formatted": `to_string()`, `format!` and the
+    template renderer (`write_fmt(..).unwrap()` into a String, audited in the panic ledger as "writing into a String cannot fail")
+    all panic on an `Err` that did not come from the writer. So no library code *creates* a `fmt::Error` value - errors of the
+    formatter are only propagated (seed C14k: HumanFloatCount returned `fmt::Error` for a rate above u64::MAX and `{per_sec}`
+    panicked inside a draw)."""
+    cfg = crate.config
+    n = 0
+    for b in K.lib_bodies(crate):
+        fmtish = "std::fmt::Error" in json_tys(b)
+        if not fmtish:
+            continue
+        n += 1
+        made = []
+        for i, j, st in b.assigns():
+            rv = st["rv"]
+            if rv["k"] == "agg" and rv.get("ak") == "adt" and rv.get("adt") in ("std::fmt::Error", "core::fmt::Error"):
+                made.append(st.get("line", 0))
+            for o in ([rv.get("op")] if rv.get("op") else []) + list(rv.get("ops") or []) + [rv.get("a"), rv.get("b")]:
+                if isinstance(o, dict) and o.get("k") == "const" and o.get("ty") in ("std::fmt::Error", "core::fmt::Error"):
+                    made.append(st.get("line", 0))
+        for c in b.calls():
+            for a in c.args:
+                if isinstance(a, dict) and a.get("k") == "const" and a.get("ty") in ("std::fmt::Error", "core::fmt::Error"):
+                    made.append(c.line)
+        ctx.check(not made, rule, "creates-fmt-error", b.name, "%s:%d" % (b.file, made[0] if made else 0),
+                  "fmt::Error values are only propagated from the formatter",
+                  "%s creates a fmt::Error of its own: Display::to_string()/format! and the template renderer's `write_fmt(..).unwrap()` panic when an impl "
+                  "reports an error the writer did not cause" % b.name, cfg)
+    ctx.floor(rule, n, 8, cfg, "bodies handling fmt::Error")
+
+
+def json_tys(b):
+    return {l["ty"] for l in b.locals} | {t for l in b.locals for t in re.findall(r"std::fmt::Error", l["ty"])}
 
 
 def rule_count_exact(ctx, crate, rule="R-COUNT-EXACT"):
